@@ -101,15 +101,33 @@ fn display_expected(ents: &[(u64, u64)], set: bool) -> String {
 /// What `Display` may render under a format specification. The statement fixes the literal form
 /// `{k: v, k: v}`; it says nothing about width, fill, precision or sign flags, so two readings are
 /// accepted: the flags are ignored (or handed to the elements, which ignore them here), or the
-/// literal form as a whole is padded / truncated the way `Formatter::pad` does it for a string.
+/// literal form as a whole is padded / truncated the way `Formatter::pad` does it for a string, or
+/// the specification is handed on to every key and value (the payload types honour it).
 fn display_accept(ents: &[(u64, u64)], set: bool, spec: u8) -> Vec<String> {
     let lit = display_expected(ents, set);
     let mut v = vec![lit.clone()];
-    if spec % 8 != 0 && spec % 8 != 7 {
+    if spec % 8 != 0 {
+        // (b) the literal form padded / truncated as a whole
         let mut padded = String::new();
         let _ = fmt_disp!(padded, spec, lit.as_str());
-        if padded != lit {
+        if !v.contains(&padded) {
             v.push(padded);
+        }
+        // (c) the specification handed on to every key and value
+        let mut fwd = String::from("{");
+        for (i, (k, val)) in ents.iter().enumerate() {
+            if i > 0 {
+                fwd.push_str(", ");
+            }
+            let _ = fmt_disp!(fwd, spec, FK(*k));
+            if !set {
+                fwd.push_str(": ");
+                let _ = fmt_disp!(fwd, spec, FV(*val));
+            }
+        }
+        fwd.push('}');
+        if !v.contains(&fwd) {
+            v.push(fwd);
         }
     }
     v
@@ -271,6 +289,8 @@ pub fn check_iter_text<K: SimK, V: SimV>(cx: &mut Cx<K, V>, what: &str, r: std::
 /// Debug of a map iterator after `take` items. `which`: 0 IntoIter, 1 IntoKeys, 2 IntoValues,
 /// 3 Drain, 4 Iter, 5 IterMut, 6 Keys, 7 Values, 8 ValuesMut.
 pub fn fmt_iter<K: SimK, V: SimV, const C: usize>(m: &mut Map<K, V, C>, cx: &mut Cx<K, V>, which: u8, take: u8, alt: bool, spec: u8, sc: SinkCfg, pre: &Snap) {
+    // a precision would truncate the identity tokens the listing is checked by: use the plain form then
+    let spec = if spec % 8 == 4 { 0 } else { spec };
     let style = if alt { Style::Alt } else { Style::Debug };
     let aw = cx.cfg.alloc_window;
     let mut sink = Sink::new(sc.cap, sc.fail_at);
